@@ -107,6 +107,13 @@ theorem C06_assertions_covered : Mcp.Gen.rpcBareAssertions = modelledBareSites +
 theorem C06_request_goroutines :
     Mcp.Gen.rpcGoStmts.filter (fun g => perMessageGoFns.contains g.1) = perMessageGoStmts := by decide
 
+/-- T-gen: in manager_lifecycle.go no method of lifecycleManager is called, at a point where `m.mu` may be held, that
+    (transitively) locks or read-locks `m.mu` again — a `sync.RWMutex` is not reentrant: a second `RLock` under a held
+    one dead-locks as soon as another client's initialize / notifications/initialized / DELETE queues its `Lock` between
+    the two, and every later handshake of any client hangs. (Lexical may-hold walk; the run-time side is the concurrent
+    handshake storm of the harness.) -/
+theorem C06_lifecycle_lock_not_reentered : Mcp.Gen.rpcLifecycleNestedLocks = [] ∧ Mcp.Gen.rpcLifecycleLockers ≠ [] := by decide
+
 /-! ## malformed input is answered -/
 
 /-- Streamable HTTP — whatever the mode, the session reference and the Accept header: a wrong path is answered 404, an unknown
